@@ -29,7 +29,7 @@ def nsOf : TagOutline → Option Ns
   | .startTag _ _ ns _ _ => some ns
   | .endTag .. => none
 
-theorem checkedSlice_some {inp : Bytes} {r : Range} {b : Bytes} (h : checkedSlice inp r = some b) :
+theorem checkedSlice_eq_slice {inp : Bytes} {r : Range} {b : Bytes} (h : checkedSlice inp r = some b) :
     b = slice inp r.start r.end := by
   unfold checkedSlice at h
   split at h
@@ -50,7 +50,7 @@ theorem mapM_names {inp : Bytes} (as : List AttrOutline) (attrs : List (Bytes ×
       | none => simp [hn, hr] at h
       | some rest =>
         simp [hn, hr] at h
-        rw [← h, ih rest hr, checkedSlice_some hn]
+        rw [← h, ih rest hr, checkedSlice_eq_slice hn]
         rfl
 
 theorem mapM_pairs {inp : Bytes} (as : List AttrOutline) (attrs : List (Bytes × Bytes))
@@ -76,7 +76,7 @@ theorem mapM_pairs {inp : Bytes} (as : List AttrOutline) (attrs : List (Bytes ×
         | none => simp [hn, hv, hr] at h
         | some rest =>
           simp [hn, hv, hr] at h
-          rw [← h, ih rest hr, checkedSlice_some hn, checkedSlice_some hv]
+          rw [← h, ih rest hr, checkedSlice_eq_slice hn, checkedSlice_eq_slice hv]
           rfl
 
 /-- The view a callback is given by the lexer and the full view of the lexeme are interchangeable. -/
@@ -97,7 +97,7 @@ theorem runCallback_view (s : Sim) (k : RLKind) (inp : Bytes) (o : TagOutline) (
       cases hn : checkedSlice inp n with
       | none => simp [hn] at h
       | some nb =>
-        have hnb := checkedSlice_some hn
+        have hnb := checkedSlice_eq_slice hn
         simp only [hn] at h
         by_cases hc : (!sc && eqCaseInsensitive nb bAnnotationXml) = true
         · simp only [hc, if_true, Option.map_eq_some_iff] at h
@@ -119,7 +119,7 @@ theorem runCallback_view (s : Sim) (k : RLKind) (inp : Bytes) (o : TagOutline) (
     | annotationXmlEnd =>
       simp only [tagViewFor, Option.map_eq_some_iff] at h
       obtain ⟨nb, hn, rfl⟩ := h
-      rw [checkedSlice_some hn]
+      rw [checkedSlice_eq_slice hn]
       rfl
     | integrationPointEnter => simp only [tagViewFor, Option.some.injEq] at h; subst h; rfl
     | fontCheck => simp only [tagViewFor, Option.some.injEq] at h; subst h; rfl
